@@ -27,7 +27,7 @@ PROP = "C07"
 N = {"quick": 40, "thorough": 2000}
 WORKERS = {"quick": 4, "thorough": 16}
 TIMEOUT = {"quick": 240, "thorough": 1000}
-CASE_TIMEOUT = 120.0
+CASE_TIMEOUT = 300.0
 RULE = ("seeded synthetic square systems: 2-4 md-variables with random dof types on "
         "subdomain or interface subsets of md-grids with 0-3 fractures, one equation per "
         "variable with the same image (set in random order); 2 splits per system: primary "
@@ -225,6 +225,9 @@ def _synthetic(case, mon):
         res["eqs"] = [res["eqs"][int(k)] for k in order]         # set order is random
         m, n = cs.sizes(mdg, res)
         assert m == n
+        if n > 800:
+            mon.excluded("system with more than 800 dofs (dense reference too slow)")
+            continue
         # choose the primary (variable, grid) pairs; equation k mirrors variable k in size
         pairs = [(k, g) for k, v in enumerate(res0["vars"]) for g in v["grids"]]
         sz = {(k, id(g)): cs.block_size(g, res0["vars"][k]["dof"], res0["vars"][k]["kind"] == "intf")
